@@ -56,6 +56,22 @@ func (db *DB) VerifVerify(ctx context.Context) (VerifSyncInfo, error) {
 	}, err
 }
 
+// VerifInit performs the lazy initialisation that the next Sync would perform
+// as its first step (newSyncExecutor -> init), so that a harness can observe
+// the state verify will see. It reports whether a database is attached.
+func (db *DB) VerifInit(ctx context.Context) (bool, error) {
+	if err := db.lockExec(ctx); err != nil {
+		return false, err
+	}
+	defer db.execSem.Release(1)
+	db.mu.Lock()
+	defer db.mu.Unlock()
+	if err := db.init(ctx); err != nil {
+		return false, err
+	}
+	return db.db != nil, nil
+}
+
 // VerifCalcWALSize exposes calcWALSize.
 func VerifCalcWALSize(pageSize, pageN uint32) int64 { return calcWALSize(pageSize, pageN) }
 
